@@ -59,13 +59,14 @@ class Model:
         class Gen(PartGenerator):
             """Generates single parts or batches of a fixed size; numbers the leaves."""
 
-            def __init__(self, value, bsrc):
+            def __init__(self, value, bsrc, bmix=False):
                 super().__init__('P', value=value, quality=1)
                 self.bsrc = bsrc
+                self.bmix = bmix
 
             def generate_part_helper(self, part_name, part_counter):
                 from simprocesd.model.factory_floor import Part
-                if self.bsrc < 0:
+                if self.bsrc < 0 or (self.bmix and part_counter % 2 == 0):
                     return Part(part_name, value=self.value, quality=self.quality)
                 ps = [Part('%s_%d' % (part_name, i), value=self.value, quality=self.quality) for i in range(self.bsrc)]
                 return Batch(part_name, ps)
@@ -78,7 +79,7 @@ class Model:
             name = 'd%d' % d['id']
             if k == 'source':
                 budget = float('inf') if d.get('budget', INF) == INF else d['budget']
-                o = Source(name, Gen(d.get('pval', 0), d.get('bsrc', -1)), cycle_time=d['cyc'] * TICK,
+                o = Source(name, Gen(d.get('pval', 0), d.get('bsrc', -1), d.get('bmix', False)), cycle_time=d['cyc'] * TICK,
                            starting_parts=budget)
             elif k == 'handler':
                 o = PartHandler(name, ups, cycle_time=d['cyc'] * TICK)
